@@ -3,6 +3,7 @@
   Model: `weighted`, `ModelParameter.mul`, `mulAddAssign` in `Jb/Model/Weights.lean`.
 -/
 import Jb.Proofs.Weights
+import Jb.Proofs.SynthLemmas
 
 set_option linter.unusedSectionVars false
 
@@ -87,6 +88,26 @@ theorem which_weights (eps : K) (iw s : IW K) (op : IWOp K) (q : Quantity) (ns :
     (h : IWOp.apply eps iw op = .ok s) (hq : q ≠ op.target) : s.select q = iw.select q := by
   have _ := hwf
   exact (apply_ok_select eps iw s op h).2 q hq
+
+/-- **Which weights, at the composition level.** In the whole-library model (`Jb/Model/Synth.lean`)
+    `Models::duration` reads the duration weights, `Models::stream(i)` reads `parameter[i]`, `Models::gv(i)`
+    reads `gv[i]` — and nothing else of the interpolation weights. -/
+theorem duration_uses_duration_weights [FloorRing K] [Transc K] [Consts K] [MlpgConsts K] [FromFile K]
+    (voices : List Hts.ParsedVoice) (iw iw' : IW K) (labels : List (List Char)) (h : iw.duration = iw'.duration) :
+    Synth.modelsDuration voices iw labels = Synth.modelsDuration voices iw' labels :=
+  Synth.duration_reads_duration_weights voices iw iw' labels h
+
+theorem stream_uses_its_parameter_weights [FloorRing K] [Transc K] [Consts K] [MlpgConsts K] [FromFile K]
+    (big : K) (voices : List Hts.ParsedVoice) (iw iw' : IW K) (labels : List (List Char)) (nstate i : Nat)
+    (h : iw.parameter.getD i [] = iw'.parameter.getD i []) :
+    Synth.modelsStream big voices iw labels nstate i = Synth.modelsStream big voices iw' labels nstate i :=
+  Synth.stream_reads_its_parameter_weights big voices iw iw' labels nstate i h
+
+theorem gv_uses_its_gv_weights [FloorRing K] [Transc K] [Consts K] [MlpgConsts K] [FromFile K]
+    (voices : List Hts.ParsedVoice) (iw iw' : IW K) (labels : List (List Char)) (nstate i : Nat)
+    (h : iw.gv.getD i [] = iw'.gv.getD i []) :
+    Synth.modelsGv voices iw labels nstate i = Synth.modelsGv voices iw' labels nstate i :=
+  Synth.gv_reads_its_gv_weights voices iw iw' labels nstate i h
 
 /-! non-vacuity: two different voices over ℚ, weights (3/4, 1/4) -/
 example : weighted ([3 / 4, 1 / 4] : List ℚ)
